@@ -936,3 +936,48 @@ Proof.
   - rewrite H. reflexivity.
   - destruct H as (x & s & H). rewrite H. reflexivity.
 Qed.
+
+(* ---- 15. the view representation of ndarray sources (Queue/TieLib.v) against Common/PySlice ---- *)
+Lemma adj_bound_range n b : 0 <= n -> 0 <= adj_bound n b <= n.
+Proof. intros H. unfold adj_bound. destruct (b <? 0) eqn:E; lia. Qed.
+
+Lemma skipn_zrange {A} (f : Z -> A) s n m : 0 <= m <= n ->
+  skipn (Z.to_nat m) (zrange f s n) = zrange f (s + m) (n - m).
+Proof.
+  intros H. replace n with (m + (n - m)) at 1 by lia. rewrite Qzrange_app by lia.
+  rewrite skipn_app. replace (Z.to_nat m - length (zrange f s m))%nat with O.
+  2:{ unfold zrange. rewrite Qzr_length. lia. }
+  rewrite skipn_all2; [reflexivity|]. unfold zrange. rewrite Qzr_length. lia.
+Qed.
+
+Lemma firstn_zrange {A} (f : Z -> A) s n m : 0 <= m <= n ->
+  firstn (Z.to_nat m) (zrange f s n) = zrange f s m.
+Proof.
+  intros H. replace n with (m + (n - m)) at 1 by lia. rewrite Qzrange_app by lia.
+  rewrite firstn_app. replace (Z.to_nat m - length (zrange f s m))%nat with O.
+  2:{ unfold zrange. rewrite Qzr_length. lia. }
+  cbn [firstn]. rewrite app_nil_r. apply firstn_all2. unfold zrange. rewrite Qzr_length. lia.
+Qed.
+
+(* slicing a view is slicing the samples (Common/PySlice), for every pair of bounds, present or omitted *)
+Lemma view_slice_is_py_slice lo hi k a b : a <= b ->
+  view_samples (view_slice lo hi (k, a, b)) = py_slice lo hi (view_samples (k, a, b)).
+Proof.
+  intros Hab. unfold view_slice, view_samples, py_slice.
+  rewrite Qzlen_zrange by lia. set (n := b - a).
+  assert (Hlo : 0 <= py_lo n lo <= n) by (unfold py_lo; destruct lo; [apply adj_bound_range|]; lia).
+  assert (Hhi : 0 <= py_hi n hi <= n) by (unfold py_hi; destruct hi; [apply adj_bound_range|]; lia).
+  rewrite skipn_zrange by lia.
+  destruct (Z.le_ge_cases (py_lo n lo) (py_hi n hi)) as [H|H].
+  - rewrite Z.max_r by lia. rewrite firstn_zrange by lia. f_equal. lia.
+  - rewrite Z.max_l by lia. replace (Z.to_nat (py_hi n hi - py_lo n lo)) with O by lia.
+    cbn [firstn]. apply Qzrange_nil. lia.
+Qed.
+
+Example view_slice_ex : view_samples (view_slice (Some 1) (Some (-1)) (7, 2, 6)) = [OWave 7 3; OWave 7 4].
+Proof. reflexivity. Qed.
+
+(* a "view" whose stop lies before its start is not an array: the equality fails there *)
+Lemma view_slice_refuted : exists lo hi k a b, b < a /\
+  view_samples (view_slice lo hi (k, a, b)) <> py_slice lo hi (view_samples (k, a, b)).
+Proof. exists (Some 0), (Some (-1)), 0, 3, 1. split; [lia|]. vm_compute. discriminate. Qed.
